@@ -46,7 +46,7 @@ def _build(P):
 
 
 def _events(P, a, b):
-    evs_a = [mk_event(t, f"send{i}", a) for i, t in enumerate(P["ts"])]
+    evs_a = [mk_event(t, f"send{i}", a) for i, t in enumerate(P["ts"])] + [mk_event(t, f"alocal{i}", a) for i, t in enumerate(P.get("ta", []))]
     evs_b = [mk_event(t, f"local{i}", b) for i, t in enumerate(P["tu"])]
     return evs_a, evs_b
 
@@ -59,6 +59,7 @@ def equivalence(sym, tier):
     P = {
         "ts": [sym.int(f"ts{i}", 0, END * S) for i in range(nsend)],
         "tu": [sym.int(f"tu{i}", 0, END * S + 2) for i in range(nloc)],
+        "ta": [sym.pick("ta0_sel", [S + S // 2, 2 * S + S // 2])],      # a later local event at the sender (it must still see the reply in time order)
         "lat": {i: S + sym.int(f"extra{i}", 0, S) for i in range(nsend)},
         "reply_lat": (S + sym.int("reply_extra", 0, S)) if sym.bool("reply") else None,
     }
@@ -147,7 +148,7 @@ HARNESSES = [
       classify=_classify,
       functions=["ParallelSimulation.__init__/_install_routers/schedule/run/_run_coordinated", "WindowedCoordinator.run/_run_partition_window/_exchange_events",
                  "make_event_router.route", "validate_partitions", "Simulation._run_window", "Simulation._execute_until"],
-      bounds=lambda tier: {"partitions": 2, "send events": 1 if tier == "quick" else 2, "local events at receiver": 1 if tier == "quick" else 2,
+      bounds=lambda tier: {"partitions": 2, "send events": 1 if tier == "quick" else 2, "local events at receiver": 1 if tier == "quick" else 2, "local events at sender": 1,
                            "event times": "symbolic ns over [0, end]", "cross latency": "min_latency + symbolic extra in [0, 1 s]",
                            "reply (B->A)": "optional", "window": [1.0, 0.5], "min_latency_s": MINLAT, "end_time_s": 3 if tier == "quick" else 4},
       outside=["thread interleavings of the worker pool", "sampled link latencies / packet loss (PartitionLink.latency, packet_loss)",
